@@ -54,6 +54,7 @@ type PQEnv struct {
 	Centroids      []float32         // flat, (Sub * K * SubLen)
 	Codes          map[int][]byte    // uuid index -> centroid id per sub-vector
 	Raw            map[int][]float32 // uuid index -> persisted full vector
+	Dists          []float32         // persisted centroid-to-centroid table (Sub * K * K), the point-to-point distance looks up
 }
 
 func (p *PQEnv) centroid(sub, c int) []float32 {
@@ -177,6 +178,9 @@ func EnvFor(metric string, q *models.Quantizer, dim int, bucket map[string][]byt
 				pq.Raw[idx] = conversion.BytesToFloat32(append([]byte{}, v...))
 			}
 		}
+		if d, ok := bucket["_productQuantizerCentroidDists"]; ok {
+			pq.Dists = conversion.BytesToFloat32(append([]byte{}, d...))
+		}
 		env.PQ = pq
 		return env, nil
 	}
@@ -206,6 +210,27 @@ func RefDistanceOf(env MetricEnv, id int, x, y []float32) float64 {
 func PQCheck(o *Obs, tag string, env MetricEnv, m *Model, prop string) {
 	if env.PQ == nil {
 		return
+	}
+	// the centroid-to-centroid table that the point-to-point distance (graph construction) sums
+	// over must hold, for every sub-vector and every pair incl. a centroid with itself, the
+	// per-sub-vector metric between the two persisted centroids
+	pq := env.PQ
+	o.Checks++
+	if len(pq.Dists) != pq.Sub*pq.K*pq.K {
+		o.Fail(tag+"-pq-centroid-distance-table-wrong", "the persisted centroid distance table has %d entries, want %d", len(pq.Dists), pq.Sub*pq.K*pq.K)
+	} else {
+	table:
+		for sub := 0; sub < pq.Sub; sub++ {
+			for a := 0; a < pq.K; a++ {
+				for b := 0; b < pq.K; b++ {
+					want := pq.inner(pq.centroid(sub, a), pq.centroid(sub, b))
+					if got := float64(pq.Dists[sub*pq.K*pq.K+a*pq.K+b]); !Near(got, want) {
+						o.Fail(tag+"-pq-centroid-distance-table-wrong", "sub-vector %d: the table entry for centroids %d and %d (%v, %v) is %g, their %s distance is %g", sub, a, b, pq.centroid(sub, a), pq.centroid(sub, b), got, pq.Inner, want)
+						break table
+					}
+				}
+			}
+		}
 	}
 	for _, id := range m.SortedIds() {
 		v, ok := VecOf(m.Docs[id], prop)
